@@ -367,6 +367,12 @@ def judge_position(pos, total):
     return None
 
 
+def pos_free(o, exp):
+    """With a negative total time no position is within [0, total]; any non-negative one is accepted."""
+    return (o[I_TOTAL] is not None and o[I_TOTAL] < 0 and o[I_POS] is not None and o[I_POS] >= 0
+            and exp[I_POS] is not None)
+
+
 def judge_history(history, obs0, tr, err):
     """The property judged on the implementation's observations.  -> [(key, what, step)]"""
     out = []
@@ -381,12 +387,12 @@ def judge_history(history, obs0, tr, err):
         k = judge_position(o[I_POS], o[I_TOTAL])
         if k:
             out.append((k, "reported position %r with total_time %r" % (o[I_POS], o[I_TOTAL]), i))
-        diff = [FIELD_NAMES[j] for j in range(len(exp)) if exp[j] != o[j] and not (j == I_POS and k)]
+        diff = [FIELD_NAMES[j] for j in range(len(exp)) if exp[j] != o[j] and not (j == I_POS and (k or pos_free(o, exp)))]
         if diff:
             what = "; ".join("%s is %r, the active player's latest state gives %r" % (n, o[FIELD_NAMES.index(n)], exp[FIELD_NAMES.index(n)]) for n in diff)
             m = history[i]
-            cls = "stale-or-foreign-state"
-            if m["k"] in ("RC", "RP"):
+            cls = "not-latest-state-of-active-player"
+            if m["k"] in ("RC", "RP") and o == prev and exp != ref_reported(history[:i]):
                 cls = "removal-not-reflected"
             out.append(("C11:report:" + cls, what, i))
         if o != prev and w == 0:
@@ -555,7 +561,10 @@ def rnd_msg(rng):
 
 def rnd_history(rng, maxlen):
     n = rng.randint(3, maxlen)
-    return [rnd_msg(rng) for _ in range(n)]
+    h = [rnd_msg(rng) for _ in range(n)]
+    if rng.random() < 0.6:                        # most histories have an active client early
+        h[rng.randint(0, 1)] = {"k": "SNPC", "c": rng.choice([1, 2]), "dn": rng.choice([0, 4, 5])}
+    return h
 
 
 # ----------------------------------------------------------------------------- the run
@@ -612,8 +621,8 @@ def run(ctx):
     if ctx.thorough:
         ctx.coqchk()
     depth = 4 if ctx.thorough else 3
-    n_random = 12000 if ctx.thorough else 1200
-    max_len = 14 if ctx.thorough else 10
+    n_random = 30000 if ctx.thorough else 4000
+    max_len = 14 if ctx.thorough else 12
     ctx.rule = ("(1) EVERY message sequence of length <= %d over a 28-message alphabet (2 clients x {default player, "
                 "named player} x all 8 kinds; set-state with and without queue), each run from scratch on the real "
                 "PlayerStateManager; (2) %d random histories of length 3..%d over 3 clients (incl. \"\") x 4 players "
@@ -686,7 +695,7 @@ def run(ctx):
             k = judge_position(o[I_POS], o[I_TOTAL])
             if k:
                 record(k, "reported position %r with total_time %r" % (o[I_POS], o[I_TOTAL]), h, n - 1)
-            if any(want[j] != o[j] and not (j == I_POS and k) for j in range(len(want))):
+            if any(want[j] != o[j] and not (j == I_POS and (k or pos_free(o, want))) for j in range(len(want))):
                 for (key, what, step) in judge_history(h, *run_impl(h)):
                     record(key, what, h, step)
             prev = obs_of.get(idxs[:-1])
@@ -694,7 +703,7 @@ def run(ctx):
                 for (key, what, step) in judge_history(h, *run_impl(h)):
                     record(key, what, h, step)
             if w > 1:
-                record("C11:wake:more-than-once", "one message called state_updated %d times" % w, h, n - 1)
+                ctx.count("woken-more-than-once")       # not demanded by the property; recorded only
             ctx.case(idxs, nontrivial=(o != idle),
                      sample={"history": h, "reported": dict(zip(FIELD_NAMES, o)), "woken": w} if n == 3 and n_seq % 5000 == 7 else None)
             ctx.count("enum-len%d" % n)
@@ -822,6 +831,22 @@ def run(ctx):
 
 def replay(ctx, path):
     d = json.load(open(path))
+    if "broken" in d and "replay" not in d:
+        # a proof obligation / correspondence broke without a failing input of the property:
+        # re-run every recorded history against the implementation and judge it again
+        rc = 0
+        for b in d["broken"]:
+            print("no longer checks: %s" % b.get("name"))
+            try:
+                det = json.loads(b.get("detail", ""))
+            except (ValueError, TypeError):
+                continue
+            if isinstance(det, dict) and "history" in det:
+                h = det["history"]
+                errs = judge_history(h, *run_impl(h))
+                print("   history %s\n   property-errors=%s" % (json.dumps(h), [(k, s2, w) for (k, w, s2) in errs]))
+                rc = rc or (1 if errs else 0)
+        return rc
     r = d.get("replay", d)
     if r.get("kind") == "playing":
         res, key = judge_playing(r["position"], r["total_time"])
